@@ -35,6 +35,10 @@ _VERIF_ENABLED: bool = _os.environ.get('BITSTRING_VERIF') == '1'
 _VERIF_TOFILE_CHUNK_BITS = None
 
 
+# File objects opened in binary mode: for reading, for update ('r+b') or unbuffered.
+_binary_file_types = (io.BufferedReader, io.BufferedRandom, io.FileIO)
+
+
 class Bits:
     """A container holding an immutable sequence of bits.
 
@@ -515,7 +519,7 @@ class Bits:
             self._bitstore = BitStore.frombytes(bytearray(s))
         elif isinstance(s, io.BytesIO):
             self._bitstore = BitStore.frombytes(s.getvalue())
-        elif isinstance(s, io.BufferedReader):
+        elif isinstance(s, _binary_file_types):
             if isinstance(getattr(s, 'name', None), (str, bytes, pathlib.PurePath)):
                 self._setfile(s.name)
             else:
@@ -557,7 +561,7 @@ class Bits:
                 offset, offset + length)
             return
 
-        if isinstance(s, io.BufferedReader):
+        if isinstance(s, _binary_file_types):
             if isinstance(getattr(s, 'name', None), (str, bytes, pathlib.PurePath)):
                 self._setfile(s.name, length, offset)
             else:
@@ -565,7 +569,7 @@ class Bits:
                 self._setbytes_with_truncation(s.read(), length, offset)
             return
 
-        if isinstance(s, (str, Bits, bytes, bytearray, memoryview, io.BytesIO, io.BufferedReader,
+        if isinstance(s, (str, Bits, bytes, bytearray, memoryview, io.BytesIO, *_binary_file_types,
                           bitarray.bitarray, array.array, abc.Iterable)):
             raise bitstring.CreationError(f"Cannot initialise bitstring from type '{type(s)}' when using explicit lengths or offsets.")
         raise TypeError(f"Cannot initialise bitstring from type '{type(s)}'.")
